@@ -1083,6 +1083,12 @@ def oracle_C14(an):
             v.append("cat_is_hold reports %d after call %s although a command is held" % (l.q[1], l.op))
         if not held and l.q[1] == 2:
             v.append("cat_is_hold reports HOLD after call %s although no command is held" % l.op)
+    # a release request, accepted or refused ("has no effect"), gives back the lock it took
+    for li, l in enumerate(an.lines):
+        if an.op_of(li).split()[0] == "hexit" and an.ev[li] and an.ev[li][0][0] == "L" and an.ev[li][0][1] == 0 \
+                and not any(e[0] == "U" for e in an.ev[li]):
+            v.append("cat_hold_exit at op %s took the mutex and returned %d without releasing it" % (l.op, l.ret))
+            break
     if not v:
         v += stuck_without_hold(an)
     return v
